@@ -1,5 +1,6 @@
 //! Shared reference components (oracles) for the scale-info verification harness.
 pub mod evidence;
+pub mod lit;
 pub mod refjson;
 pub mod refs;
 pub mod refscale;
